@@ -347,10 +347,9 @@ def r5(ctx, rep):
             body = cl["body"]
             # current.start.unwrap_or(1) + b - 1
             try:
-                # replace `current.start.unwrap_or(1)` by a symbol
-                txt = show(body)
-                ok1 = txt.replace(" ", "") in ("((current.start.unwrap_or(1)+b)-1)",)
-            except Exception:
+                # `current.start.unwrap_or(1)` is one symbol of the linear form
+                ok1 = linear.norm(linear.linear(body)) == tuple(sorted({"": -1, "current.start.unwrap_or(1)": 1, show(cl["params"][0]): 1}.items()))
+            except linear.NotLinear:
                 ok1 = False
         if e.get("k") == "mcall" and e["m"] == "or_map" and show(e["r"]) == "current.end":
             ok2 = show(e["a"][0]) == "range.end" and show(e["a"][1]) == "i64::min"
